@@ -203,6 +203,19 @@ def nameOK : Bytes → Bool
   | [] => false
   | c :: nm => isAlpha c && nm.all isAlnum
 
+/-- tag name as `read_tag_name` really delimits it: a letter followed by bytes that are not white space, `/` or `>`
+(so `-`, `:`, `_`, digits, `=`, `<`, non-ASCII bytes … are name bytes) -/
+def nameOK2 : Bytes → Bool
+  | [] => false
+  | c :: nm => isAlpha c && nm.all nameByte
+
+theorem nameOK2_of_nameOK {disp : Bytes} (h : nameOK disp = true) : nameOK2 disp = true := by
+  cases disp with
+  | nil => exact h
+  | cons c nm =>
+    simp only [nameOK, nameOK2, Bool.and_eq_true, List.all_eq_true] at h ⊢
+    exact ⟨h.1, fun b hb => nameByte_of_alnum (h.2 b hb)⟩
+
 theorem isAlnum_lt {b : Nat} (h : isAlnum b = true) : b < 128 ∧ b ≠ 47 := by
   simp only [isAlnum, isAlpha, Bool.or_eq_true, Bool.and_eq_true, decide_eq_true_eq] at h
   omega
@@ -275,7 +288,7 @@ theorem attrsOf_last : ∀ (as : List SAttr), as ≠ [] → (∀ a ∈ as, a.ok 
     rw [List.getLast?_append, hx]; rfl
 
 /-- the byte before the `>` of a `Simple` start tag is not `/` -/
-theorem body_last (disp : Bytes) (as : List SAttr) (trail : Bytes) (hn : nameOK disp = true)
+theorem body_last (disp : Bytes) (as : List SAttr) (trail : Bytes) (hn : nameOK2 disp = true)
     (hok : ∀ a ∈ as, a.ok = true) (htr : ∀ b ∈ trail, isWs b = true) :
     ∃ b, (disp ++ attrsOf as ++ trail).getLast? = some b ∧ b ≠ 47 := by
   cases hg : trail.getLast? with
@@ -289,18 +302,20 @@ theorem body_last (disp : Bytes) (as : List SAttr) (trail : Bytes) (hn : nameOK 
     · subst has
       simp only [attrsOf, List.append_nil]
       cases hd : disp.getLast? with
-      | none => rw [List.getLast?_eq_none_iff] at hd; subst hd; simp [nameOK] at hn
+      | none => rw [List.getLast?_eq_none_iff] at hd; subst hd; simp [nameOK2] at hn
       | some b =>
         refine ⟨b, rfl, ?_⟩
         have hm := List.mem_of_getLast? hd
         cases disp with
         | nil => simp at hm
         | cons c nm =>
-          simp only [nameOK, Bool.and_eq_true, List.all_eq_true] at hn
+          simp only [nameOK2, Bool.and_eq_true, List.all_eq_true] at hn
           simp only [List.mem_cons] at hm
           rcases hm with rfl | hm
           · exact (isAlnum_lt (isAlpha_alnum hn.1)).2
-          · exact (isAlnum_lt (hn.2 b hm)).2
+          · have := hn.2 b hm
+            simp only [nameByte, Bool.and_eq_true, bne_iff_ne, ne_eq] at this
+            exact this.1.2
     · obtain ⟨b, hb, h47⟩ := attrsOf_last as has hok
       exact ⟨b, by rw [List.getLast?_append, hb]; rfl, h47⟩
 
@@ -308,18 +323,18 @@ def TagEnd.kind : TagEnd → TokenType
   | .gt => .startTag
   | .slashGt => .selfClosing
 
-/-- **closed form of `next` on a start tag / self-closing tag of the `Simple` grammar** followed by anything -/
-theorem start_tag_closed_form (t : Tokenizer) (disp : Bytes) (as : List SAttr) (trail : Bytes) (e : TagEnd)
-    (ok : Ok t) (he : t.err = false) (htag : t.rawTag = []) (hn : nameOK disp = true)
+/-- **closed form of `next` on a start tag / self-closing tag** (any name `read_tag_name` accepts) followed by anything -/
+theorem start_tag_closed_form2 (t : Tokenizer) (disp : Bytes) (as : List SAttr) (trail : Bytes) (e : TagEnd)
+    (ok : Ok t) (he : t.err = false) (htag : t.rawTag = []) (hn : nameOK2 disp = true)
     (hok : ∀ a ∈ as, a.ok = true) (htr : ∀ b ∈ trail, isWs b = true) (hend : endOK as trail e = true)
     (h : Has t t.rawE ([60] ++ disp ++ attrsOf as ++ trail ++ e.text)) :
     Piece t (next t) e.kind ([60] ++ disp ++ attrsOf as ++ trail ++ e.text).length
       (if isRawName (disp.map lowerByte) then disp.map lowerByte else []) ∧
     (next t).dataS = t.rawE + 1 ∧ (next t).dataE = t.rawE + 1 + disp.length := by
   cases disp with
-  | nil => simp [nameOK] at hn
+  | nil => simp [nameOK2] at hn
   | cons c nm =>
-    simp only [nameOK, Bool.and_eq_true, List.all_eq_true] at hn
+    simp only [nameOK2, Bool.and_eq_true, List.all_eq_true] at hn
     obtain ⟨hc, hnm⟩ := hn
     have hx : [60] ++ (c :: nm) ++ attrsOf as ++ trail ++ e.text = 60 :: c :: (nm ++ (attrsOf as ++ trail ++ e.text)) := by
       simp [List.append_assoc]
@@ -330,7 +345,7 @@ theorem start_tag_closed_form (t : Tokenizer) (disp : Bytes) (as : List SAttr) (
     generalize opened t = S at *
     have hS : Has S S.rawE (nm ++ (attrsOf as ++ trail ++ e.text)) :=
       ((h.tail.tail).congr o4).at (by rw [o1])
-    have run := readTag_run nm as trail e S true o7 (by omega) o3 (fun b hb => nameByte_of_alnum (hnm b hb)) hok htr hend hS
+    have run := readTag_run nm as trail e S true o7 (by omega) o3 hnm hok htr hend hS
     have a1 := readTag_adv S true o7 (by omega)
     obtain ⟨⟨r1, r2⟩, r3, r4⟩ := run
     -- the raw-text lookup
@@ -346,12 +361,14 @@ theorem start_tag_closed_form (t : Tokenizer) (disp : Bytes) (as : List SAttr) (
     have hfirst : (readTag S true).buf[(readTag S true).dataS]'hlt = c := by
       have := hdisp.head
       rw [Array.getElem?_eq_getElem hlt] at this; injection this
-    have hascii : ∀ b ∈ (c :: nm), b < 128 := by
-      intro b hb
-      simp only [List.mem_cons] at hb
-      rcases hb with rfl | hb
-      · exact (isAlnum_lt (isAlpha_alnum hc)).1
-      · exact (isAlnum_lt (hnm b hb)).1
+    -- a name found in the dispatch table consists of ASCII letters
+    have hascii : isRawName ((c :: nm).map lowerByte) = true → ∀ b ∈ (c :: nm), b < 128 := by
+      intro hr b hb
+      have hmem : (c :: nm).map lowerByte ∈ htmlRawDispatch.flatMap (·.2) := by
+        unfold isRawName at hr; exact List.contains_iff_mem.mp hr
+      have := rawNames_letters _ hmem (lowerByte b) (List.mem_map_of_mem hb)
+      have := le_lowerByte b
+      omega
     have hslice : (readTag S true).slice? (readTag S true).dataS (readTag S true).dataE = some (c :: nm) := by
       unfold slice?
       have hin : (readTag S true).dataS ≤ (readTag S true).dataE ∧ (readTag S true).dataE ≤ (readTag S true).buf.size := by
@@ -368,7 +385,7 @@ theorem start_tag_closed_form (t : Tokenizer) (disp : Bytes) (as : List SAttr) (
       cases hb : isRawName ((c :: nm).map lowerByte) with
       | false => rfl
       | true =>
-        simp only [hslice, validUtf8_of_ascii _ hascii, if_true]
+        simp only [hslice, validUtf8_of_ascii _ (hascii hb), if_true]
     -- unfold `next`
     rw [hnx]
     unfold dispatchTag
@@ -428,7 +445,7 @@ theorem start_tag_closed_form (t : Tokenizer) (disp : Bytes) (as : List SAttr) (
           simp
         rw [this, herr2]; rfl
       | gt =>
-        obtain ⟨b, hb, h47⟩ := body_last (c :: nm) as trail (by simp [nameOK, hc]; exact hnm) hok htr
+        obtain ⟨b, hb, h47⟩ := body_last (c :: nm) as trail (by simp [nameOK2, hc]; exact hnm) hok htr
         have hL : ((c :: nm) ++ attrsOf as ++ trail).length = 1 + nm.length + (attrsOf as ++ trail).length := by
           simp; omega
         have := hidx (1 + nm.length + (attrsOf as ++ trail).length) (by simp [TagEnd.text]; omega)
@@ -456,6 +473,16 @@ theorem start_tag_closed_form (t : Tokenizer) (disp : Bytes) (as : List SAttr) (
       by show T2.dataS = _; rw [f5, r3, o1]; omega, by show T2.dataE = _; rw [f6, r4, o1]; simp; omega⟩
     show T2.rawTag = _
     rw [f10, a1.rawTag, o5]
+
+/-- the `Simple`-grammar instance (names = a letter followed by letters / digits) -/
+theorem start_tag_closed_form (t : Tokenizer) (disp : Bytes) (as : List SAttr) (trail : Bytes) (e : TagEnd)
+    (ok : Ok t) (he : t.err = false) (htag : t.rawTag = []) (hn : nameOK disp = true)
+    (hok : ∀ a ∈ as, a.ok = true) (htr : ∀ b ∈ trail, isWs b = true) (hend : endOK as trail e = true)
+    (h : Has t t.rawE ([60] ++ disp ++ attrsOf as ++ trail ++ e.text)) :
+    Piece t (next t) e.kind ([60] ++ disp ++ attrsOf as ++ trail ++ e.text).length
+      (if isRawName (disp.map lowerByte) then disp.map lowerByte else []) ∧
+    (next t).dataS = t.rawE + 1 ∧ (next t).dataE = t.rawE + 1 + disp.length :=
+  start_tag_closed_form2 t disp as trail e ok he htag (nameOK2_of_nameOK hn) hok htr hend h
 
 end Tokenizer
 end Rio.Html
